@@ -26,6 +26,7 @@ type c15trace struct {
 	gateTag string // handler inside which this call parks until released
 	gate    chan struct{}
 	parked  bool
+	outcome byte // what the built-in handler's function does: 0 = returns, 'E' = returns an error, 'P' = panics
 }
 
 type c15key struct{}
@@ -60,7 +61,15 @@ func c15inv(tag string, ctx context.Context, name string, args []interface{}, ne
 		t.mark("-" + tag)
 		return []interface{}{"short:" + tag}, nil
 	}
-	res, err := next(ctx, name, args)
+	res, err := func() ([]interface{}, error) {
+		defer func() {
+			if p := recover(); p != nil {
+				t.mark("^" + tag) // left by a panic passing through, not by a return
+				panic(p)
+			}
+		}()
+		return next(ctx, name, args)
+	}()
 	verifsim.Yield(-22)
 	t.mark("-" + tag)
 	if err == nil && len(res) == 1 {
@@ -78,7 +87,15 @@ func c15io(tag string, ctx context.Context, request []byte, next core.NextIOHand
 		t.mark("-" + mt)
 		return []byte(`Rs5"SHORT"z`), nil
 	}
-	res, err := next(ctx, request)
+	res, err := func() ([]byte, error) {
+		defer func() {
+			if p := recover(); p != nil {
+				t.mark("^" + mt)
+				panic(p)
+			}
+		}()
+		return next(ctx, request)
+	}()
 	verifsim.Yield(-24)
 	t.mark("-" + mt)
 	return res, err
@@ -195,7 +212,12 @@ func (m *c15model) unuse(hs []*c15handler, alias bool) {
 }
 
 // chain renders the marks a call must produce for the given lists.
-func c15chain(outer, inner []string, short string) []string {
+func c15chain(outer, inner []string, short string) []string { return c15chainP(outer, inner, short, false) }
+
+// c15chainP: with panicInner the built-in handler panics and the panic is turned into an error between the inner
+// and the outer layer (the service does that between its invoke and its IO handlers): the inner handlers are left by
+// the panic ("^"), the outer ones by a return ("-").
+func c15chainP(outer, inner []string, short string, panicInner bool) []string {
 	var marks []string
 	var open []string
 	cut := false
@@ -217,7 +239,11 @@ func c15chain(outer, inner []string, short string) []string {
 		marks = append(marks, "core")
 	}
 	for i := len(open) - 1; i >= 0; i-- {
-		marks = append(marks, "-"+open[i])
+		if panicInner && !cut && i >= len(outer) {
+			marks = append(marks, "^"+open[i])
+		} else {
+			marks = append(marks, "-"+open[i])
+		}
 	}
 	return marks
 }
@@ -244,12 +270,18 @@ func scenC15(r *Run) {
 	sim := r.StartSim(verifsim.Config{IdleCap: time.Hour, StepCap: 100000})
 	service := core.NewService()
 	coreRuns := map[int]int{}
-	service.AddFunction(func(nonce int) string {
+	service.AddFunction(func(nonce int) (string, error) {
 		coreRuns[nonce]++
 		if c15cur != nil && c15cur.id == nonce {
 			c15cur.mark("core")
+			switch c15cur.outcome {
+			case 'E':
+				return "", fmt.Errorf("core error %d", nonce)
+			case 'P':
+				panic(fmt.Sprintf("core panic %d", nonce))
+			}
 		}
-		return fmt.Sprintf("v%d", nonce)
+		return fmt.Sprintf("v%d", nonce), nil
 	}, "f")
 	fx := NewFixture(r, "mock", service)
 	client := fx.NewClient()
@@ -307,20 +339,26 @@ func scenC15(r *Run) {
 				if len(all) > 0 && r.PlanBool(4) {
 					t.short = all[r.Plan(len(all))]
 				}
+				// errors and panics of the function travel back through every handler like results do
+				t.outcome = []byte{0, 0, 0, 'E', 'P'}[r.Plan(5)]
 				c15cur = t
 				ctx := context.Background()
 				if !onService {
 					ctx = context.WithValue(ctx, c15key{}, t)
 				}
-				sim.Event("call", nonce, "short="+t.short)
+				sim.Event("call", nonce, "short="+t.short, "outcome="+string(append([]byte{'-'}, t.outcome)))
 				res, err := client.InvokeContext(ctx, "f", []interface{}{nonce})
 				c15cur = nil
+				if t.outcome != 0 && t.short == "" && (err == nil || !strings.Contains(err.Error(), fmt.Sprintf("core %s %d", map[byte]string{'E': "error", 'P': "panic"}[t.outcome], nonce))) {
+					r.Fail("C15:error-path:"+mode, "call %d: the function %s, the caller got result %v err %v", nonce, map[byte]string{'E': "returned an error", 'P': "panicked"}[t.outcome], res, err)
+					return
+				}
 				// client: invoke handlers are the outer layers; service: IO handlers are
 				outer, inner := invL, ioL
 				if onService {
 					outer, inner = ioL, invL
 				}
-				want := c15chain(outer, inner, t.short)
+				want := c15chainP(outer, inner, t.short, onService && t.outcome == 'P')
 				got := t.marks
 				if strings.Join(got, " ") != strings.Join(want, " ") {
 					ai, ao := aliasM.lists()
@@ -328,7 +366,7 @@ func scenC15(r *Run) {
 					if onService {
 						ai, ao = ao, ai
 					}
-					if strings.Join(got, " ") == strings.Join(c15chain(ai, ao, t.short), " ") {
+					if strings.Join(got, " ") == strings.Join(c15chainP(ai, ao, t.short, onService && t.outcome == 'P'), " ") {
 						cls = "C15:chain-mismatch:unuse-removed-aliased-handler:" + mode
 					}
 					r.Fail(cls, "call %d: installed invoke handlers %v, IO handlers %v, short-circuit at %q\n expected %v\n observed %v (result %v, err %v)", nonce, invL, ioL, t.short, want, got, res, err)
